@@ -47,7 +47,7 @@ package replication
 //@   at SaveReplicationStatus 1 assert [fresh-id] unbox(arg1, drAutoSyncStatus).StateID == id && unbox(arg1, drAutoSyncStatus).State == "sync_recover"
 //@   modifies m.drAutoSync, m.drRecoverKey, m.drRecoverCount, ghost kvhas, ghost kvval, ghost evres
 
-//@ func (*ModeManager).drSwitchToSync
+//@ func (*ModeManager).drSwitchToSyncWithLock
 //@   props C19
 //@   requires m.cluster != nil && m.storage != nil
 //@   ensures [fail-unchanged] result != nil ==> m.drAutoSync == old(m.drAutoSync)
@@ -56,6 +56,23 @@ package replication
 //@   at SaveReplicationStatus 1 assert [saved-before-served] m.drAutoSync == old(m.drAutoSync)
 //@   at SaveReplicationStatus 1 assert [fresh-id] unbox(arg1, drAutoSyncStatus).StateID == id && unbox(arg1, drAutoSyncStatus).State == "sync"
 //@   modifies m.drAutoSync, ghost kvhas, ghost kvval
+
+// drSwitchToSync (initialisation and tests) switches whatever the state is; drSwitchToSyncFrom - the one the tick uses -
+// re-checks under the lock that the state is still sync_recover with the id the regions were checked against.
+//@ func (*ModeManager).drSwitchToSync
+//@   props C19
+//@   requires m.cluster != nil && m.storage != nil
+//@   ensures [fail-unchanged] result != nil ==> m.drAutoSync == old(m.drAutoSync)
+//@   ensures [published] result == nil ==> m.drAutoSync.State == "sync"
+//@   option event drSwitchToSync
+//@   modifies m.drAutoSync, ghost kvhas, ghost kvval, ghost evres
+//@ func (*ModeManager).drSwitchToSyncFrom
+//@   props C19
+//@   requires m.cluster != nil && m.storage != nil
+//@   ensures [only-from-the-state-that-was-checked] old(m.drAutoSync.State) != "sync_recover" || old(m.drAutoSync.StateID) != stateID ==> m.drAutoSync == old(m.drAutoSync) && result == nil
+//@   ensures [fail-unchanged] result != nil ==> m.drAutoSync == old(m.drAutoSync)
+//@   ensures [published-or-left-alone] result == nil ==> m.drAutoSync.State == "sync" || m.drAutoSync == old(m.drAutoSync)
+//@   modifies m.drAutoSync, ghost kvhas, ghost kvval, ghost evres
 
 //@ func (*ModeManager).drSwitchToAsync
 //@   props C19
@@ -140,7 +157,8 @@ package replication
 //@   requires sampleOK(m)
 //@   at drSwitchToAsync 1 assert [to-async] (downPrimary >= totalPrimary || downDr >= totalDr) && upPeers * 2 > totalPrimary + totalDr && upPeers == ite(downPrimary < totalPrimary, totalPrimary - downPrimary, 0) + ite(downDr < totalDr, totalDr - downDr, 0) && m.drAutoSync.State != "async" && lastok("drCheckAsyncTimeout")
 //@   at drSwitchToSyncRecover 1 assert [to-sync-recover] downPrimary < totalPrimary && downDr < totalDr && m.drAutoSync.State == "async"
-//@   at drSwitchToSync 1 assert [to-sync] progress == 1 && m.drAutoSync.State == "sync_recover" && len(m.drRecoverKey) == 0 && m.drRecoverCount > 0 && chain(m, m.drRecoverKey, m.drRecoverCount)
+//@   at drSwitchToSyncFrom 1 assert [to-sync] progress == 1 && m.drAutoSync.State == "sync_recover" && len(m.drRecoverKey) == 0 && m.drRecoverCount > 0 && chain(m, m.drRecoverKey, m.drRecoverCount) && arg0 == m.drAutoSync.StateID
+//@   ensures [sync-only-through-the-rechecking-switch] count("drSwitchToSync") == old(count("drSwitchToSync"))
 //@   ensures [not-dr-mode] old(m.config.ReplicationMode) != "dr-auto-sync" ==> m.drAutoSync == old(m.drAutoSync)
 //@   modifies *
 
